@@ -270,18 +270,31 @@ def r4_monotone(ctx):
 
 
 def r5_clone(ctx):
+    from ._shared import state_writes
+
     ctx.rule("C09.R5", "trajectories computed on a clone fed with the requested ages and parameters", 2)
     ix = ctx.ix
+    sw = state_writes(ctx)
     for mod, qual in (("leaspy.models.mcmc_saem_compatible", "McmcSaemCompatibleModel.compute_individual_trajectory"), ("leaspy.models.joint", "JointModel.compute_individual_trajectory")):
         f = ix.func(mod, qual, "C09.R5")
-        src = U(f.node)
-        ok = "local_state = self.state.clone(disable_auto_fork=True)" in src and "self._put_data_timepoints(local_state, timepoints)" in src and "local_state['model']" in src
-        ctx.check(ok, "C09.R5", f, f.node, "clone -> requested ages -> individual parameters -> read `model`", "the trajectory is not computed on a clone fed with the requested ages")
-        loops = [l for l in ast.walk(f.node) if isinstance(l, ast.For) and "individual_parameters.items()" in U(l.iter)]
-        ok = bool(loops) and any(isinstance(s, ast.Assign) and U(s.targets[0]).startswith("local_state[") for s in loops[0].body)
+        prov = sw.provenance(f)
+        # the state whose `model` value is returned
+        read = [x for x in ast.walk(f.node) if isinstance(x, ast.Subscript) and isinstance(x.slice, ast.Constant) and x.slice.value == "model" and isinstance(x.value, ast.Name)]
+        if not read:
+            ctx.unknown("C09.R5", f, f.node, "the trajectory is not read as <state>['model']")
+            continue
+        st = read[0].value.id
+        ctx.check(prov.get(st) == "clone", "C09.R5", f, read[0], f"`{st}` is a clone of the model state",
+                  f"the trajectory is computed on `{st}` ({prov.get(st, 'not a clone')}): the requested ages and individual parameters are written into the live model state")
+        tp = [c for c in ast.walk(f.node) if isinstance(c, ast.Call) and U(c.func) == "self._put_data_timepoints" and c.args and U(c.args[0]) == st]
+        a1 = f.node.args.args[1].arg
+        ok = bool(tp) and isinstance(tp[0].args[1], ast.Name) and tp[0].args[1].id == a1
+        ctx.check(ok, "C09.R5", f, tp[0] if tp else f.node, "the requested ages are the time points of the working state", "the working state is not fed with the requested ages", construct="requested ages")
+        loops = [l for l in ast.walk(f.node) if isinstance(l, ast.For) and U(l.iter).endswith(".items()") and f.node.args.args[2].arg in U(l.iter)]
+        ok = bool(loops) and any(isinstance(s_, ast.Assign) and isinstance(s_.targets[0], ast.Subscript) and U(s_.targets[0].value) == st for s_ in loops[0].body)
         ctx.check(ok, "C09.R5", f, loops[0] if loops else f.node, "every provided individual parameter is written into the clone", "individual parameters are not all written into the working state", construct="individual parameters written")
-        ok = "self._check_individual_parameters_provided(individual_parameters.keys())" in src
-        ctx.check(ok, "C09.R5", f, f.node, "missing / unknown individual parameters refused first", "missing or unknown individual parameters are no longer refused", construct="parameters checked")
+        chk = [c for c in ast.walk(f.node) if isinstance(c, ast.Call) and U(c.func) == "self._check_individual_parameters_provided"]
+        ctx.check(bool(chk), "C09.R5", f, f.node, "missing / unknown individual parameters refused first", "missing or unknown individual parameters are no longer refused", construct="parameters checked")
 
 
 def r6_layout(ctx):
@@ -330,5 +343,7 @@ VARIANTS = [
     V("join-duplicates", "src/leaspy/models/base.py", "                estimations = estimations[~estimations.index.duplicated()]\n", "", "C09.R6"),
     V("trajectory-not-cloned", "src/leaspy/models/mcmc_saem_compatible.py", "        local_state = self.state.clone(disable_auto_fork=True)\n        self._put_data_timepoints(local_state, timepoints)\n        for (",
       "        local_state = self.state\n        self._put_data_timepoints(local_state, timepoints)\n        for (", "C09.R5"),
+    V("silent-rename-local-state", "src/leaspy/models/mcmc_saem_compatible.py", "        local_state = self.state.clone(disable_auto_fork=True)\n        self._put_data_timepoints(local_state, timepoints)\n        for (\n            individual_parameter_name,\n            individual_parameter_value,\n        ) in individual_parameters.items():\n            local_state[individual_parameter_name] = individual_parameter_value\n\n        return local_state[\"model\"]",
+      "        work = self.state.clone(disable_auto_fork=True)\n        self._put_data_timepoints(work, timepoints)\n        for (\n            individual_parameter_name,\n            individual_parameter_value,\n        ) in individual_parameters.items():\n            work[individual_parameter_name] = individual_parameter_value\n\n        return work[\"model\"]", None),
     V("silent-logit-rewritten", L, "        w_model_logit = metric[pop_s] * (\n            v0[pop_s] * rt + space_shifts[:, None, ...]\n        ) - torch.log(g[pop_s])", "        w_model_logit = metric[pop_s] * v0[pop_s] * rt + metric[pop_s] * space_shifts[:, None, ...] - torch.log(g[pop_s])", None),
 ]
